@@ -942,7 +942,7 @@ def create_agents(
                 name,
                 default_route=default_route,
                 routes=routes,
-                default_hosting_costs=default_hosting_costs,
+                default_hosting_cost=default_hosting_costs,
                 hosting_costs=hosting_costs,
                 **kwargs,
             )
@@ -954,7 +954,7 @@ def create_agents(
                 name,
                 default_route=default_route,
                 routes=routes,
-                default_hosting_costs=default_hosting_costs,
+                default_hosting_cost=default_hosting_costs,
                 hosting_costs=hosting_costs,
                 **kwargs,
             )
@@ -965,7 +965,7 @@ def create_agents(
                 name,
                 default_route=default_route,
                 routes=routes,
-                default_hosting_costs=default_hosting_costs,
+                default_hosting_cost=default_hosting_costs,
                 hosting_costs=hosting_costs,
                 **kwargs,
             )
